@@ -135,6 +135,69 @@ theorem natToBE_small (n : Nat) (h0 : n ≠ 0) (h : n < 256) : natToBE n = [UInt
   rw [this, natToBE_zero, Nat.mod_eq_of_lt h]
   rfl
 
+theorem snoc_induction {P : Bytes → Prop} (h0 : P []) (hs : ∀ xs b, P xs → P (xs ++ [b])) : ∀ l, P l := by
+  intro l
+  have : ∀ r : Bytes, P r.reverse := by
+    intro r
+    induction r with
+    | nil => exact h0
+    | cons a r ih => rw [List.reverse_cons]; exact hs _ _ ih
+  have h := this l.reverse
+  rwa [List.reverse_reverse] at h
+
+/-- `Sign.Bytes()` after `SetBytes`: left-padding the minimal big-endian form of a
+    byte string's value back to the string's length gives the string. -/
+theorem padLeft_natToBE_beToNat (bs : Bytes) : padLeft bs.length (natToBE (beToNat bs)) = bs := by
+  induction bs using snoc_induction with
+  | h0 => simp [padLeft, beToNat, natToBE_zero]
+  | hs xs b ih =>
+    rw [beToNat_snoc]
+    by_cases hn : beToNat xs * 256 + b.toNat = 0
+    · have hx : beToNat xs = 0 := by omega
+      have hb : b.toNat = 0 := by omega
+      have hb' : b = 0 := by
+        apply UInt8.toNat_inj.1; simpa using hb
+      rw [hx, natToBE_zero] at ih
+      rw [hn, natToBE_zero]
+      simp only [padLeft, List.length_nil, Nat.sub_zero, List.append_nil, List.length_append,
+        List.length_cons, Nat.zero_add] at ih ⊢
+      rw [List.replicate_succ', ih, hb']
+    · rw [natToBE_pos _ hn]
+      have hb := b.toNat_lt
+      have e1 : (beToNat xs * 256 + b.toNat) / 256 = beToNat xs := by omega
+      have e2 : (beToNat xs * 256 + b.toNat) % 256 = b.toNat := by omega
+      rw [e1, e2, UInt8.ofNat_toNat]
+      simp only [padLeft, List.length_append, List.length_cons, List.length_nil, Nat.zero_add] at ih ⊢
+      have : xs.length + 1 - ((natToBE (beToNat xs)).length + 1) = xs.length - (natToBE (beToNat xs)).length := by
+        omega
+      rw [this, ← List.append_assoc, ih]
+
+/-- A 65-byte signature survives `BytesToSign` / `Sign.Bytes()` unchanged, so
+    every bit of the wire signature is what the recovery sees. -/
+theorem sign_bytes_roundtrip (b : Bytes) (sg : Sign) (h : bytesToSign b = some sg) : sg.bytes = b := by
+  unfold bytesToSign at h
+  by_cases hl : b.length = 65
+  · simp only [hl, ↓reduceIte, Option.some.injEq] at h
+    subst h
+    unfold Sign.bytes
+    have l1 : (b.take 32).length = 32 := by simp [hl]
+    have l2 : ((b.drop 32).take 32).length = 32 := by simp [hl]
+    have p1 := padLeft_natToBE_beToNat (b.take 32)
+    have p2 := padLeft_natToBE_beToNat ((b.drop 32).take 32)
+    rw [l1] at p1
+    rw [l2] at p2
+    simp only [p1, p2]
+    have l3 : (b.drop 64).length = 1 := by simp [hl]
+    have h3 : [(b.drop 64).headD 0] = b.drop 64 := by
+      match hd : b.drop 64, l3 with
+      | [x], _ => rfl
+    rw [h3]
+    have e : (b.drop 32).take 32 ++ b.drop 64 = b.drop 32 := by
+      have : b.drop 64 = (b.drop 32).drop 32 := by rw [List.drop_drop]
+      rw [this, List.take_append_drop]
+    rw [List.append_assoc, e, List.take_append_drop]
+  · simp [hl] at h
+
 /-! ### RLP of the payload struct -/
 
 theorem u8_toNat (n : Nat) (h : n < 256) : (UInt8.ofNat n).toNat = n := by
